@@ -53,6 +53,12 @@ def cek_property(pid, tier, plan, relevant, rule, level='model_checking', max_oo
                                      parallel=min(3, len(files)))
     verdict = vlib.Verdict(pid)
     # every session must have been consumed to its end
+    # TLC occasionally evaluates an action (and its PrintT) twice for one state when several workers are
+    # used: sessions are counted by identity, not by END lines
+    uniq = {}
+    for e in ends:
+        uniq[(e['file'], e['id'])] = e
+    ends = list(uniq.values())
     if len(ends) != nsess:
         raise vlib.ToolError('trace validation consumed %d of %d sessions' % (len(ends), nsess))
     oom = sum(1 for e in ends if e['oom'])
